@@ -131,6 +131,13 @@ strftime(char * s, size_t max, const char * fmt, const struct tm * tm)
 	g_aws_fix[g_aws_nfix].ptr = s;
 	g_aws_fix[g_aws_nfix].len = pos;
 	g_aws_nfix++;
+	/* ghost: remember the text (the caller's buffer is usually a local that dies with its frame) */
+	if (g_aws_time.fmt_calls < 4) {
+		g_aws_time.fmt_len[g_aws_time.fmt_calls] = pos;
+		for (fi = 0; fi < 32; fi++)
+			g_aws_time.fmt_out[g_aws_time.fmt_calls][fi] = (fi < pos) ? tmp[fi] : '\0';
+	}
+	g_aws_time.fmt_calls++;
 	return (pos);
 }
 #pragma CPROVER check pop
